@@ -251,6 +251,8 @@ class Explorer:
                 self.var_log = []
                 pr = PathResult()
                 self._path = pr
+                from . import instrument as _ins
+                _ins.reset_taint()
                 self.solver.push()
                 try:
                     try:
